@@ -1,10 +1,12 @@
 package mesh
 
 import (
+	"crypto/tls"
 	"net"
 	"net/http"
 	"sync"
 	"sync/atomic"
+	"time"
 
 	"golang.org/x/net/http2"
 )
@@ -46,4 +48,30 @@ func NewH2Server(h http.Handler) (srv *RawServer, badPreface *int32) {
 		srv := &http2.Server{MaxConcurrentStreams: 1000}
 		srv.ServeConn(&prefaceConn{Conn: c, bad: badPreface}, &http2.ServeConnOpts{Handler: h})
 	}), badPreface
+}
+
+// NewH2TransportTracked is NewH2Transport plus an abort function that resets every connection the
+// transport opened (clean-up without TIME_WAIT sockets).
+func NewH2TransportTracked() (*http2.Transport, func()) {
+	var mu sync.Mutex
+	var conns []net.Conn
+	tr := &http2.Transport{AllowHTTP: true, DisableCompression: true,
+		DialTLS: func(network, addr string, _ *tls.Config) (net.Conn, error) {
+			c, err := net.DialTimeout(network, addr, 3*time.Second)
+			if err == nil {
+				mu.Lock()
+				conns = append(conns, c)
+				mu.Unlock()
+			}
+			return c, err
+		}}
+	return tr, func() {
+		mu.Lock()
+		for _, c := range conns {
+			rstClose(c)
+		}
+		conns = nil
+		mu.Unlock()
+		tr.CloseIdleConnections()
+	}
 }
